@@ -211,4 +211,79 @@ example : AtTurn Ex.g3 (Ex.g3.players[0]) ∧ Ex.g3.cw = 6 ∧ (Ex.g3.step (.act
     ((Ex.g3.step (.act none .call 0)).1.players[0]?.map (·.wager)) = some 10 :=
   ⟨⟨Ex.reach_g3, by decide, rfl⟩, by decide, by decide, by decide, by decide⟩
 
+/-! ## The opposite polarity for call, bet and raise (gap found by review)
+
+  `offered_spec` gives "call / bet / raise is offered WHENEVER …" and "never when no wager stands / a wager
+  stands".  The property also says "call, bet and raise are never offered in the opposite situations": the
+  theorems below give the converses, so that each of the three is offered EXACTLY in its situation. -/
+
+/-- Sentence 1, "(call, bet and raise are never offered in the opposite situations)", the missing polarity.
+    For the player to act at any reachable decision point (same hypotheses as `offered_spec`):
+    (5') call is offered ONLY when the player faces a higher wager (`wager < cw`) and can cover it with chips
+         to spare (`initial > cw`);
+    (7') bet is offered ONLY when nobody has wagered this round (`cw = 0`, and indeed every seat's wager is 0)
+         and the player holds at least the minimum bet (`initial ≥ miniBet`);
+    (9') raise is offered ONLY when a wager stands (`cw > 0`) and either the player is behind it and holds
+         more than wager-to-match + minimum raise (`wager < cw ∧ initial > cw + prev`), or the player is level
+         with it (big blind / option) and holds at least the minimum bet (`wager = cw ∧ initial ≥ miniBet`).
+    These are the exact branch conditions of `GetAvailableActions` (`availableActions`, `avail_mem`). -/
+theorem offered_spec_converse {g : Game} {p : Player} (h : AtTurn g p) (hf : p.fold = false) (hs : p.stack ≠ 0) :
+    (Act.call ∈ p.allowed → p.wager < g.cw ∧ p.initial > g.cw) ∧
+    (Act.bet ∈ p.allowed → g.cw = 0 ∧ (∀ q ∈ g.players, q.wager = 0) ∧ p.initial ≥ g.miniBet) ∧
+    (Act.raise ∈ p.allowed → g.cw > 0 ∧
+      ((p.wager < g.cw ∧ p.initial > g.cw + g.prev) ∨ (p.wager = g.cw ∧ p.initial ≥ g.miniBet))) := by
+  rw [h.allowed_eq]
+  obtain ⟨_, _, _, _, _, m5, m6, m7⟩ := avail_mem (g := g) hf hs
+  have hw0 := h.pinv.wager0
+  have hwle := h.chips.wle p h.mem
+  have hcw := h.chips.cw0
+  refine ⟨fun a => m5.mp a, ?_, ?_⟩
+  · intro a
+    obtain ⟨_, b, c⟩ := m6.mp a
+    refine ⟨c, ?_, b⟩
+    intro q hq
+    have := h.chips.wle q hq
+    have := (h.chips.pinv q hq).wager0
+    omega
+  · intro a
+    rcases m7.mp a with ⟨a1, a2, _⟩ | ⟨a1, a2, a3⟩
+    · exact ⟨by omega, Or.inl ⟨a1, a2⟩⟩
+    · exact ⟨by omega, Or.inr ⟨by omega, a2⟩⟩
+
+/-- `offered_spec` and `offered_spec_converse` together, as equivalences: each of call, bet and raise is
+    offered to the player to act exactly in its situation. -/
+theorem offered_iff {g : Game} {p : Player} (h : AtTurn g p) (hf : p.fold = false) (hs : p.stack ≠ 0) :
+    (Act.call ∈ p.allowed ↔ p.wager < g.cw ∧ p.initial > g.cw) ∧
+    (Act.bet ∈ p.allowed ↔ g.cw = 0 ∧ p.initial ≥ g.miniBet) ∧
+    (Act.raise ∈ p.allowed ↔ g.cw > 0 ∧
+      ((p.wager < g.cw ∧ p.initial > g.cw + g.prev) ∨ (p.wager = g.cw ∧ p.initial ≥ g.miniBet))) := by
+  obtain ⟨c1, c2, c3⟩ := offered_spec_converse h hf hs
+  obtain ⟨_, _, _, s5, _, s7, _, _, _⟩ := offered_spec h hf hs
+  have hprev := h.chips.prev0
+  have hwle := h.chips.wle p h.mem
+  refine ⟨⟨c1, fun a => s5 a.1 a.2⟩, ⟨fun a => ⟨(c2 a).1, (c2 a).2.2⟩, fun a => s7 a.1 a.2⟩, ⟨c3, ?_⟩⟩
+  rintro ⟨a, b⟩
+  rw [h.allowed_eq]
+  obtain ⟨_, _, _, _, _, _, _, m7⟩ := avail_mem (g := g) hf hs
+  apply m7.mpr
+  rcases b with ⟨b1, b2⟩ | ⟨b1, b2⟩
+  · exact Or.inl ⟨b1, b2, by omega⟩
+  · exact Or.inr ⟨by omega, b2, by omega⟩
+
+/-- Non-vacuity of the converses.  `Ex.g1` (preflop, dealer facing the big blind 10 with 1000): call and raise are
+    offered, `wager 0 < cw 10`, `initial 1000 > cw + prev = 20`; `Ex.g2` (flop, nobody has bet): bet is offered,
+    `cw = 0`, `initial 990 ≥ miniBet 10`; `Ex.g3` (short big blind 6, minimum raise still 10): call and raise offered. -/
+example : AtTurn Ex.g1 (Ex.g1.players[0]) ∧ (Ex.g1.players[0]).fold = false ∧ (Ex.g1.players[0]).stack ≠ 0 ∧
+    Act.call ∈ (Ex.g1.players[0]).allowed ∧ Act.raise ∈ (Ex.g1.players[0]).allowed ∧
+    ((Ex.g1.players[0]).wager, Ex.g1.cw, Ex.g1.prev, (Ex.g1.players[0]).initial) = (0, 10, 10, 1000) :=
+  ⟨⟨Ex.reach_g1, by decide, rfl⟩, by decide, by decide, by decide, by decide, by decide⟩
+example : AtTurn Ex.g2 (Ex.g2.players[1]) ∧ (Ex.g2.players[1]).fold = false ∧ (Ex.g2.players[1]).stack ≠ 0 ∧
+    Act.bet ∈ (Ex.g2.players[1]).allowed ∧ (Ex.g2.cw, Ex.g2.miniBet, (Ex.g2.players[1]).initial) = (0, 10, 990) :=
+  ⟨⟨Ex.reach_g2, by decide, rfl⟩, by decide, by decide, by decide, by decide⟩
+/-- the second raise situation (level with the wager to match): the big blind's option after two calls -/
+example : let g := Ex.g1.run [.act none .call 0, .act none .call 0]
+    AtTurn g (g.players[2]) ∧ Act.raise ∈ (g.players[2]).allowed ∧ Act.call ∉ (g.players[2]).allowed ∧
+    ((g.players[2]).wager, g.cw, g.miniBet, (g.players[2]).initial) = (10, 10, 10, 1000) :=
+  ⟨⟨Ex.reach_g1.run _, by decide, rfl⟩, by decide, by decide, by decide⟩
+
 end Pokerface.C11
